@@ -56,6 +56,7 @@ TDo(ev) ==
     [] ev.e = "CbBegin"    -> CbBegin(a[1])
     [] ev.e = "CbEnd"      -> CbEnd(a[1], a[2])
     [] ev.e = "DispEnd"    -> DispEnd(r[1])
+    [] ev.e \in {"CRecvSmall", "CEvRecvSmall"} -> r[1] = 0 /\ UNCHANGED vars   \* never more bytes than the buffer holds
     [] ev.e = "Idle"       -> UNCHANGED vars     \* poll() reported nothing for the server's descriptor
     [] ev.e = "Skip"       -> UNCHANGED vars     \* the harness did not execute the scheduled call
     [] OTHER               -> FALSE              \* "Hang": a call did not return
@@ -65,7 +66,7 @@ TraceNext ==
   /\ LET ev == Tr[l] IN
      IF ev.e = "Reset" THEN Fresh2(TRUE, 0) ELSE
      /\ TDo(ev)
-     /\ (maxMsg' > 0 => ObsOK(ev.o))
+     /\ ((maxMsg' > 0 /\ ev.o # <<>>) => ObsOK(ev.o))
 TraceSpec == TraceInit /\ [][TraceNext]_<<vars, l>>
 TraceAccepted == TLCGet("stats").diameter - 1 = Len(Tr)
 =============================================================================
